@@ -149,6 +149,20 @@ type BatchCase struct {
 	// slice passed to WithAttrs (0 retains it, 1 copies and wipes it, 2 copies
 	// and rewrites its keys); slog lets the handler own that slice.
 	HandlerMode int `json:"handler_mode,omitempty"`
+	// Verbose: indexes of requests whose host the base logger's handler is
+	// verbose for: a handler derived with that host attribute is enabled at
+	// every level, whatever BaseMin says.
+	Verbose []int `json:"verbose,omitempty"`
+}
+
+func (c BatchCase) verboseHosts() map[string]bool {
+	m := map[string]bool{}
+	for _, i := range c.Verbose {
+		if len(c.Reqs) > 0 {
+			m["host-"+reqID(((i%len(c.Reqs))+len(c.Reqs))%len(c.Reqs))] = true
+		}
+	}
+	return m
 }
 
 type logRec struct {
@@ -165,6 +179,20 @@ type recHandler struct {
 	attrs []slog.Attr
 	min   slog.Level // records below this level are not enabled
 	mode  int        // what WithAttrs does with the slice it is given: 0 retains it, 1 copies and wipes it, 2 copies and rewrites its keys
+	// verbose: values of the "host" attribute for which a derived handler lets
+	// every level through (per-host verbosity: Enabled of a derived handler
+	// may differ from its parent's).
+	verbose map[string]bool
+}
+
+// derivedMin is the minimum level of a handler derived with the attributes as.
+func (h *recHandler) derivedMin(as []slog.Attr) slog.Level {
+	for _, a := range as {
+		if a.Key == "host" && h.verbose[a.Value.String()] {
+			return -100
+		}
+	}
+	return h.min
 }
 
 func (h *recHandler) Enabled(_ context.Context, l slog.Level) bool { return l >= h.min }
@@ -188,15 +216,15 @@ func (h *recHandler) WithAttrs(as []slog.Attr) slog.Handler {
 	case 1: // copy, then wipe the slice it was given
 		own := slices.Clone(as)
 		clear(as)
-		return &recHandler{mu: h.mu, recs: h.recs, attrs: own, min: h.min, mode: h.mode}
+		return &recHandler{mu: h.mu, recs: h.recs, attrs: own, min: h.derivedMin(own), mode: h.mode, verbose: h.verbose}
 	case 2: // copy, then rewrite the keys of the slice it was given
 		own := slices.Clone(as)
 		for i := range as {
 			as[i].Key = "scribbled." + as[i].Key
 		}
-		return &recHandler{mu: h.mu, recs: h.recs, attrs: own, min: h.min, mode: h.mode}
+		return &recHandler{mu: h.mu, recs: h.recs, attrs: own, min: h.derivedMin(own), mode: h.mode, verbose: h.verbose}
 	}
-	return &recHandler{mu: h.mu, recs: h.recs, attrs: as, min: h.min, mode: h.mode}
+	return &recHandler{mu: h.mu, recs: h.recs, attrs: as, min: h.derivedMin(as), mode: h.mode, verbose: h.verbose}
 }
 func (h *recHandler) WithGroup(string) slog.Handler { return h }
 
@@ -303,7 +331,7 @@ func checkBatch(c BatchCase) error {
 	vp.CurrentJSON("c20.batch", c)
 	var mu sync.Mutex
 	var recs []logRec
-	mw := httputil.NewLogMiddleware(slog.New(&recHandler{mu: &mu, recs: &recs, min: slog.Level(c.BaseMin), mode: c.HandlerMode}), slog.Level(c.Level))
+	mw := httputil.NewLogMiddleware(slog.New(&recHandler{mu: &mu, recs: &recs, min: slog.Level(c.BaseMin), mode: c.HandlerMode, verbose: c.verboseHosts()}), slog.Level(c.Level))
 	mwEnabled := c.Level >= c.BaseMin
 
 	n := len(c.Reqs)
@@ -340,7 +368,7 @@ func checkBatch(c BatchCase) error {
 			return mw.Wrap(mw.Wrap(inner))
 		case 3:
 			levels = 2
-			mw2 := httputil.NewLogMiddleware(slog.New(&recHandler{mu: &mu, recs: &recs, min: slog.Level(c.BaseMin), mode: c.HandlerMode}), slog.Level(c.Level))
+			mw2 := httputil.NewLogMiddleware(slog.New(&recHandler{mu: &mu, recs: &recs, min: slog.Level(c.BaseMin), mode: c.HandlerMode, verbose: c.verboseHosts()}), slog.Level(c.Level))
 			return mw.Wrap(mw2.Wrap(inner))
 		}
 		return mw.Wrap(inner)
@@ -583,12 +611,15 @@ func checkBatch(c BatchCase) error {
 	}
 	for i, p := range per {
 		wantMW := levels
-		if !mwEnabled {
+		if !mwEnabled && !c.verboseHosts()["host-"+reqID(i)] {
 			wantMW = 0
 		}
 		if p.started != wantMW || p.finished != wantMW || p.inside != c.Reqs[i].Logs {
 			return fmt.Errorf("request %s: %d started, %d finished, %d inside records; want %d, %d, %d (middleware level %d, base logger minimum %d)", reqID(i), p.started, p.finished, p.inside, wantMW, wantMW, c.Reqs[i].Logs, c.Level, c.BaseMin)
 		}
+	}
+	if len(c.Verbose) > 0 && !mwEnabled {
+		vp.Class("batch:only-the-derived-handler-of-some-hosts-is-enabled")
 	}
 	if maxParked >= 2 {
 		vp.Class("batch:>=2-requests-parked-simultaneously")
@@ -632,6 +663,9 @@ var batchProp = vp.Register(vp.Prop[BatchCase]{
 		c := BatchCase{Level: rapid.SampledFrom([]int{-4, 0, 4}).Draw(t, "level"), BaseMin: rapid.SampledFrom([]int{-8, -8, -4, 0, 4, 8}).Draw(t, "basemin")}
 		c.Nest = rapid.SampledFrom([]int{0, 0, 0, 2, 2, 3}).Draw(t, "nest")
 		c.HandlerMode = rapid.SampledFrom([]int{0, 0, 1, 2}).Draw(t, "handlermode")
+		if rapid.IntRange(0, 2).Draw(t, "verbose") == 0 {
+			c.Verbose = rapid.SliceOfN(rapid.IntRange(0, n-1), 1, 3).Draw(t, "verbosereqs")
+		}
 		var acts []Act
 		for i := 0; i < n; i++ {
 			c.Reqs = append(c.Reqs, ReqSpec{
